@@ -66,3 +66,8 @@ claim("C04", "store/reset path analysis and structural rules over every parsed v
       "Structural necessary conditions only (round-trip equality of VALUES is not decidable from the code's shape and is not claimed): no decoder stores into the message before the resetting protojson decode unless the datum is re-inserted or its key stays in the re-decoded map; flattened-oneof arms set the oneof unconditionally; a feature's encoder and decoder spell keys with the same accessors; timestamp/bytes format arms are symmetric; no UnixNano; child marshalling errors are not dropped; encoding/json on generated messages is inventoried (known architectural findings).",
       "protojson.Unmarshal resets its target; encoding/json uses Go struct tags on generated structs.",
       "DESIGN.md 5/C04")
+
+claim("C03", "abstract evaluation of each generator's own route code over a finite configuration grid (annotation accessors replaced by constants), published route read back from the reconstructed output; who-reads-the-annotations rule; structural rules on the OpenAPI path-item assignment",
+      "For every grid point (base path with/without leading/trailing slash and multi-segment x method path shapes with 0-3 variables x five verbs x config present/absent/verb unset/path unset) the verb and path literals in the reconstructed Go server, Go client, TS client and TS server output and the value of the OpenAPI generator's extractMethodHTTPInfo must coincide; every generator announces every path variable, the TS server reads it from the segment the agreed template has it in, clients put query fields on the wire for the same verbs and servers read them there, body verbs coincide; only internal/annotations parses templates and reads the extensions; processService/processMethod visit every RPC once, reuse the path item of the evaluated path and store the operation in the slot of its verb. Exact on the grid (string manipulation is evaluated, not sampled at run time); outside the grid (other RPC name shapes, exotic characters) nothing is decided. The defaulting disagreement (no method path) is a known finding.",
+      "The walker's model of strings/path/fmt folding is the Go library's own functions applied to constants; net/http ServeMux pattern semantics and fetch are not modelled.",
+      "DESIGN.md 5/C03")
